@@ -4,21 +4,22 @@ HOOKS = {
     "guard": "cfg(kani)",
     "enable": "set automatically (and only) by kani-compiler when the harness crates under /verif/harness are built with `cargo kani`; cargo build/test never set it",
     "baseline_off_cmd": "cd /repo && (cargo nextest run --workspace --no-fail-fast --test-threads 8 --offline || cargo test --workspace --no-fail-fast --offline)",
-    "source_commits": ["b6c0ba7", "f428fc8"],
+    "source_commits": ["b6c0ba7", "f428fc8", "cd0cc3b", "9f13681", "1235390"],
     "add_only": True,
 }
 
 NOTES = ("All checks are bounded symbolic execution of /repo's compiled code with Kani (CBMC + CaDiCaL); bounds and what lies "
          "outside them are in each evidence file and in DESIGN.md. Exit 2 = inconclusive (never a pass). "
-         "fix: commits in /repo (3471e8e C20, 477dd88 C07) are listed in known-findings.txt. "
-         "15 of the 20 properties are not applicable to this technique on this code base; the measured reasons are in DESIGN.md section 5.")
+         "fix: commits in /repo (3471e8e C20, 477dd88 C07, 978ab72 C19) are listed in known-findings.txt. "
+         "12 properties are claimed; for C02, C05, C06, C10, C12, C13 and C15 only the synchronous seam of the property is decided (stated in each level_claimed.text) - "
+         "the async loops behind them are out of reach (measured, DESIGN.md section 5). 8 properties are not applicable.")
 
 ASYNC = ("decided only by the job-task / worker `async` state machines; Kani encodes coroutine state as a union, CBMC loses every "
          "constant stored across an `.await`, and the real future did not finish symbolic execution in 30 min even for one concrete "
          "control (one `select!` over three receivers alone: 8-11M SAT variables). Measured in DESIGN.md section 5; no straight-line seam exists")
 
 NOT_APPLICABLE = {
-    "C01": "event path = lib::action::worker::throttle_collect + worker (async, priority channel, tokio timeout): " + ASYNC,
+    "C01": "event path = lib::action::worker::throttle_collect + worker (async, priority channel, tokio timeout). Attempted in session 3 with a full environment (tokio-full, async-priority-channel and tokio-stream models under /verif/models, harness/throttle): ONE poll of the real throttle_collect future on an empty open channel did not finish symbolic execution in 15 min, the one-event scenario not in 21 min, with every cut applied (no-op tracing, shrunk model arrays, unwind 3, ManuallyDrop on the future, fieldless error, field sensitivity 64 and 1024); only the closed-channel early return finishes (33 s), which decides nothing about delivery. Cause: the Timeout<Recv> future lives inside the coroutine's state union, its pointers read back symbolic and every arm after the await (filter call, error send, Event / RuntimeError drop glue) is explored on garbage. " + ASYNC,
     "C02": "debounce window = the same async throttle_collect loop over virtual time: " + ASYNC,
     "C03": "the verdict is computed by ignore::gitignore (globset, regex-automata) and a radix trie keyed by Display-formatted heap strings; one concrete `Path::components` comparison already costs 25M SAT variables (C17 probe), glob compilation is far beyond that; replacing the engine by a model would verify the model, not the code",
     "C04": "sequencing of spawns is the job task loop (supervisor::job::task, async): " + ASYNC + "; a state-object-level harness over CommandState::{spawn,reset} alone also ran out of memory (4.7M symex steps for 4 concrete paths: Box<dyn TokioChildWrapper>/io::Error drop-glue fan-out)",
@@ -32,12 +33,47 @@ NOT_APPLICABLE = {
     "C13": "watcher registration is the async fs worker over notify + HashSet<WatchedPath> (hash maps over symbolic keys: one insert > 15 min) and tokio::sync::Notify: " + ASYNC,
     "C14": "a directory walk over tokio::fs + gix-config + the glob engine; nothing to encode without the filesystem",
     "C15": "error delivery = async error_hook / worker loops over RuntimeError (io::Error, notify::Error, Box<dyn>) and real tokio mpsc (cooperative-budget thread-local: executing it never finished): " + ASYNC,
-    "C17": "paths::common_prefix / summarise_events_to_env are built on Path::components and HashMap/HashSet: a single fully concrete common_prefix([\"/a/b\",\"/a/c\"]) costs 25M SAT variables / 109M clauses / 274 s; any symbolic input is out of reach, hash containers over symbolic keys likewise",
+    "C17": "cli::emits::events_to_simple_format on ONE concrete event ('/a', Create(File)): still in symbolic execution at the 600 s cap (504 loop unwindings: Utf8Chunks::next via to_string_lossy, find_map over tags). paths::common_prefix / summarise_events_to_env are built on Path::components and HashMap/HashSet: a single fully concrete common_prefix([\"/a/b\",\"/a/c\"]) costs 25M SAT variables / 109M clauses / 274 s; any symbolic input is out of reach, hash containers over symbolic keys likewise",
 }
 
 CHECKS = {
+    "C02": {
+        "text": "Only the two synchronous facts the debounce logic relies on are decided: Priority is totally ordered Low < Normal < High < Urgent with Urgent the maximum and Normal the default (all triples), and Event::is_empty (the filter bypass test) is exactly 'has no tags'. The debounce window itself (throttle_collect) is NOT decided: measured infeasible (DESIGN section 5).",
+        "design_ref": "4/C02",
+        "note": "Trusted: Kani/CBMC/CaDiCaL, no-op tracing model. Not covered: window timing, batch composition, urgent flush, starvation bound - all inside the async throttle_collect.",
+    },
+    "C05": {
+        "text": "Only the mode-selection sentence is decided: EventsArgs::normalise over all combinations of initial --on-busy-update mode, --restart, --signal (any signal), --no-environment, --only-emit-events, emit mode: the resulting mode is signal if --signal is given, else restart if --restart, else the given mode; the emit-events rules as documented; nothing else changes. The on-busy behaviour itself (what the action handler does to the job) is NOT decided.",
+        "design_ref": "4/C05",
+        "note": "Trusted: Kani/CBMC/CaDiCaL; hook watchexec_cli::verif (cfg(kani)) incl. baseline argument values standing in for clap's defaults; stubs catch_unwind, patched backtrace crate (compile fix). Not covered: the action closure in cli::config::make_config (async, job control), --postpone, queue/restart/signal run behaviour.",
+    },
+    "C06": {
+        "text": "Only the synchronous seam of the grace timer is decided: Timer::stop / Timer::restart compute deadline = now + grace exactly; the timer is not past at any instant before the deadline and past from the deadline on (symbolic creation and query times, grace 0 included); the forced control produced at expiry is Stop resp. ContinueTryGracefulRestart and carries the timer's own flag; PriorityReceiver::recv returns that control first when the timer has expired (even with urgent/high/normal controls queued), clears the timer and leaves the queues untouched, and lets urgent and high controls through while a timer is armed; stop_with_signal / restart_with_signal / try_restart_with_signal enqueue exactly [GracefulStop{signal, grace}(, Start)] / TryGracefulRestart on the normal queue. What the job task does with these (signal first, kill at expiry, one respawn) is NOT decided.",
+        "design_ref": "4/C06",
+        "note": "Trusted: Kani/CBMC/CaDiCaL; models/tokio virtual clock; hooks Timer::verif_* (cfg(kani)). Not covered: supervisor::job::task (async), recv paths that reach select! (armed timer with only normal controls pending).",
+    },
+    "C10": {
+        "text": "Send side, complete for single calls: each of the 20 public Job methods enqueues exactly its documented controls, in order, on the documented queue (delete_now: urgent; to_wait: high; everything else normal) and nothing elsewhere; two successive calls (25 pairs of 5 representative methods) stay in call order per queue and do not resolve each other's tickets. Receive side, for the states decided before recv's select!: urgent before high before normal, FIFO within urgent, expired timer first. NOT decided: recv paths through select! (only normal controls pending; wake-up after Pending) and what the job task executes.",
+        "design_ref": "4/C10",
+        "note": "Trusted: Kani/CBMC/CaDiCaL; models/tokio mpsc ring and wakers; hook job_from_parts (cfg(kani)). Sequential: no concurrent senders on real threads.",
+    },
+    "C12": {
+        "text": "Only the flag-expansion sentence is decided: FilteringArgs::normalise over all 2^7 combinations of the five no-* flags, --ignore-nothing and --no-meta: --ignore-nothing sets all five, otherwise each flag keeps its value, --no-meta expands to the four fs event kinds, and no filter or ignore input is invented. What the filterer construction does with the flags (which discovered sources are dropped, that explicit options survive) is NOT decided.",
+        "design_ref": "4/C12",
+        "note": "Trusted: Kani/CBMC/CaDiCaL; hook watchexec_cli::verif; stubs catch_unwind, miette capture_handler (kani-compiler ICE work-around), dunce::canonicalize -> identity. Not covered: cli::dirs::ignores, WatchexecFilterer::new (tokio::fs discovery, glob engine), clap.",
+    },
+    "C13": {
+        "text": "Only the configuration-cell seam is decided: Changeable / ChangeableFn / ChangeableFilterer return the last value written, clones share state, call() reaches the currently installed closure exactly once, a handler that replaces itself from inside call() neither deadlocks nor disturbs the invocation in progress; every Config setter (throttle, keyboard_events, file_watcher, on_error, pathset, filterer) stores exactly what it was given and wakes a listener registered on the change signal (real tokio Notify). The fs worker's convergence to the configured path set is NOT decided.",
+        "design_ref": "4/C13",
+        "note": "Trusted: Kani/CBMC/CaDiCaL; no-op tracing model; hook config_change_signal; stub Box::write -> ptr::write. Sequential execution of RwLock/Notify. Not covered: lib::sources::fs worker, ConfigWatched::next, watch/unwatch failures.",
+    },
+    "C15": {
+        "text": "Only the hand-over seam is decided: for one runtime error, the body of error_hook's loop (ErrorHook::new -> handler.call -> ErrorHook::handle_crit) calls the installed handler exactly once with that error; ignore gives Ok; elevate() ends with CriticalError::Elevated carrying the SAME runtime error; critical(c) ends with c; a handler that keeps the hook alive yields Ok as documented. 8 payload-light RuntimeError variants (signal numbers / message bytes symbolic). Delivery through the channels and containment in the workers are NOT decided.",
+        "design_ref": "4/C15",
+        "note": "Trusted: Kani/CBMC/CaDiCaL; no-op tracing model; hooks watchexec::verif::{hook_new, hook_crit_cell, hook_handle_crit}; stub Box::write -> ptr::write. Not covered: async send sites and the error channel, io::Error / notify::Error payloads, main-task termination.",
+    },
     "C07": {
-        "text": "Bounded, solver-decided: 3 waiter tasks polling clones of one flag / clones of one ticket / two tickets of one job in every interleaving of 3 poll slots (re-polls included), then the control's flag or the job-gone flag is raised; every parked waiter must have been woken and every clone resolves. This is the wake-up half of the property (where the genuine lost-wake-up defect was found and fixed); the task-level half (which controls raise which flag, graceful-stop timing, failures) is not covered.",
+        "text": "Bounded, solver-decided: every public ticket-returning Job method returns a ticket that shares the done flag of exactly the LAST control it enqueued and the job's gone flag (pending until one of them is raised, not resolved by an earlier control of a multi-control operation, already resolved and nothing enqueued on a dead job); and 3 waiter tasks polling clones of one flag / clones of one ticket / two tickets of one job in every interleaving of 3 poll slots (re-polls included), then the control's flag or the job-gone flag is raised; every parked waiter must have been woken and every clone resolves. This is the wake-up half of the property (where the genuine lost-wake-up defect was found and fixed); the task-level half (which controls raise which flag, graceful-stop timing, failures) is not covered.",
         "design_ref": "4/C07",
         "note": "Trusted: Kani/CBMC/CaDiCaL; models/tokio waker identities and poll helper; hook watchexec_supervisor::verif (cfg(kani)). Sequential execution: atomics/Mutex are run without thread interleavings. Not covered: supervisor::job::task (async, out of reach) - so a mutation that forgets to raise a control's flag in task.rs is NOT detected.",
     },
@@ -47,14 +83,14 @@ CHECKS = {
         "note": "Trusted: Kani/CBMC/CaDiCaL; hooks watchexec_events::verif / watchexec_signals::verif (cfg(kani)). Not covered: serde_json itself (tokenising, escaping, number printing; the harnesses stand in for it), Event-level vectors and metadata maps (HashMap), non-UTF-8 paths, parse scenarios beyond the 16 objects. In the quick tier 2 of the 6 format-half ranges run (14 kinds); all 41 in thorough.",
     },
     "C18": {
-        "text": "Bounded, solver-decided for the no-shell branch: Command::to_spawnable with Program::Exec hands the process layer exactly [program, args...] byte for byte, for 0..=3 arguments of 0..=2 symbolic ASCII bytes (every metacharacter/whitespace/quote/control byte) plus a multi-byte argument, and exactly the wrappers {KillOnDrop} + {Session | Group} + {ResetSigmask} for all 8 option combinations.",
+        "text": "Bounded, solver-decided for both branches of Command::to_spawnable: Program::Exec hands the process layer exactly [program, args...] byte for byte (0..=3 arguments of 0..=2 symbolic ASCII bytes incl. every metacharacter/whitespace/quote/control byte, plus a multi-byte argument); Program::Shell is invoked as shell prog, options.., program option, command string, extra args.. in exactly that order, one argv element each, byte for byte (0..=2 options, program option absent / borrowed / owned, 0..=2 extra args incl. an empty one, 3 length patterns of which one in quick); exactly the wrappers {KillOnDrop} + {Session | Group} + {ResetSigmask} for all 8 option combinations; and the CLI's interpret_command_args: --no-shell / --shell=none give Exec with the words unchanged, --shell=sh gives Shell{sh, -c, words joined by single spaces}, --shell='' is an error, --wrap-process maps to grouped / session.",
         "design_ref": "4/C18",
-        "note": "Trusted: Kani/CBMC/CaDiCaL; models/tokio process::Command and models/process-wrap (recorders). Not covered: the Program::Shell branch (measured intractable: 31M variables for one concrete scenario), exec fidelity below tokio::process::Command, spawn-hook env/cwd, CLI argument interpretation, strings longer than 2 bytes.",
+        "note": "Trusted: Kani/CBMC/CaDiCaL; models/tokio process::Command and models/process-wrap (recorders). Hook watchexec_cli::verif (cfg(kani)). Stub MaybeUninit::write -> ptr::write in the shell harnesses. Not covered: exec fidelity below tokio::process::Command (what std and the kernel do with the argv, pgid/sid of a real child), spawn-hook env/cwd, shells taken from $SHELL and multi-word --shell values, strings longer than 3 bytes.",
     },
     "C19": {
-        "text": "Solver-decided over full ranges: Signal::from(i32) vs to_nix for all 2^32 numbers, POSIX numbers of the first-class signals, to_nix/from_nix round trip for every Signal value, ProcessEnd::from(ExitStatus) for all 2^32 raw wait statuses (exit code, terminating signal with/without core bit, stopped, continued, never the unreachable!), ProcessEnd -> ExitStatus -> ProcessEnd for Success / ExitError(1..=255) / ExitSignal(valid).",
+        "text": "Solver-decided over full ranges: Signal::from(i32) vs to_nix for all 2^32 numbers, POSIX numbers of the first-class signals, to_nix/from_nix round trip for every Signal value, ProcessEnd::from(ExitStatus) for all 2^32 raw wait statuses (exit code, terminating signal with/without core bit, stopped, continued, never the unreachable!), ProcessEnd -> ExitStatus -> ProcessEnd for Success / ExitError(1..=255) / ExitSignal(valid). Names (real from_unix_str / from_windows_str / FromStr / Display): every one of the 31 Linux signals in the spellings NAME, SIGNAME and number in every letter case parses to that OS signal (FromStr: except the documented Windows control names, which win - STOP is ForceStop); all 13 Windows control names in every case; conversely EVERY ASCII string of length 1..=10 is accepted exactly when the documented grammar says so and never panics; Display of the first-class signals is SIGxxx, of Custom(n) the number, and both parse back to the same OS signal.",
         "design_ref": "4/C19",
-        "note": "Trusted: Kani/CBMC/CaDiCaL; std's unix wait-status decoding as compiled; Linux x86_64 signal numbering. Not covered: name parsing and Display (Signal::from_str on one concrete 3-letter name did not finish in 25 min: core::fmt + allocation + 30-way string match), --map-signal parsing, Windows branches.",
+        "note": "Trusted: Kani/CBMC/CaDiCaL; std's unix wait-status decoding as compiled; Linux x86_64 signal numbering. Stub: alloc::fmt::format -> String::with_capacity(16) + the real core::fmt::write (the real one allocates a capacity CBMC cannot fold: OOM). Quick tier: 12 of the 62 name rows, 2 of 19 string lengths, 3 of 14 custom-number groups; all in thorough. Not covered: non-ASCII and > 10-byte input, the --map-signal FROM:TO value parser, Windows branches of Display.",
     },
     "C20": {
         "text": "Solver-decided over the complete ProjectType enumeration (discriminant symbolic, bounded by mem::variant_count so new variants are covered): is_vcs xor is_soft. Complete for the classification sentence of the property; the origin-walk sentences are not covered.",
